@@ -1,0 +1,112 @@
+//go:build verif
+
+package nebula
+
+// Thin exports for the verification harness engine `hostmap` (add-only, no behaviour).
+
+import (
+	"log/slog"
+	"net/netip"
+	"slices"
+
+	"github.com/slackhq/nebula/test"
+	"github.com/slackhq/nebula/udp"
+)
+
+// VerifHostmap bundles a main hostmap with its pending side the way main.go wires them.
+type VerifHostmap struct {
+	L    *slog.Logger
+	Main *HostMap
+	HS   *HandshakeManager
+	F    *Interface
+}
+
+func VerifHostmapNew() *VerifHostmap {
+	l := test.NewLogger()
+	hm := newHostMap(l)
+	pr := []netip.Prefix{}
+	hm.preferredRanges.Store(&pr)
+	// amLighthouse keeps StartHandshake from queueing lighthouse queries nobody drains
+	lh := &LightHouse{l: l, addrMap: map[netip.Addr]*RemoteList{}, queryChan: make(chan netip.Addr, 10), amLighthouse: true}
+	lighthouses := []netip.Addr{}
+	staticList := map[netip.Addr]struct{}{}
+	lh.localAddrsFn = func(*LocalAllowList) []netip.Addr { return nil }
+	lh.lighthouses.Store(&lighthouses)
+	lh.staticList.Store(&staticList)
+	hs := NewHandshakeManager(l, hm, lh, &udp.NoopConn{}, defaultHandshakeConfig)
+	f := &Interface{hostMap: hm, handshakeManager: hs, lightHouse: lh, l: l}
+	hs.f = f
+	return &VerifHostmap{L: l, Main: hm, HS: hs, F: f}
+}
+
+func VerifHostmapNewHostInfo(addrs []netip.Addr, local, remote uint32, pkt []byte, hsTime uint64, initiator bool) *HostInfo {
+	return &HostInfo{
+		ConnectionState:   &ConnectionState{initiator: initiator},
+		localIndexId:      local,
+		remoteIndexId:     remote,
+		vpnAddrs:          addrs,
+		HandshakePacket:   map[uint8][]byte{handshakePacketStage0: pkt},
+		lastHandshakeTime: hsTime,
+		relayState: RelayState{
+			relayForByAddr: map[netip.Addr]*Relay{},
+			relayForByIdx:  map[uint32]*Relay{},
+		},
+	}
+}
+
+// VerifHostmapFinish sets what continueHandshake sets on a pending hostinfo right before Complete.
+func VerifHostmapFinish(h *HostInfo, addrs []netip.Addr, remote uint32, hsTime uint64) {
+	h.ConnectionState = &ConnectionState{initiator: true}
+	h.remoteIndexId = remote
+	h.lastHandshakeTime = hsTime
+	h.vpnAddrs = addrs
+}
+
+func VerifHostmapFields(h *HostInfo) (addrs []netip.Addr, local, remote uint32, relayIdxs []uint32) {
+	relayIdxs = h.relayState.CopyRelayForIdxs()
+	slices.Sort(relayIdxs)
+	return h.vpnAddrs, h.localIndexId, h.remoteIndexId, relayIdxs
+}
+
+func VerifGenerateIndex(l *slog.Logger) (uint32, error) { return generateIndex(l) }
+
+// VerifHostmapPending returns the pending handshake for addr, if any, and whether its stage 0 packet (and so its index) was built.
+func (v *VerifHostmap) VerifHostmapPending(addr netip.Addr) (*HostInfo, bool) {
+	hh := v.HS.queryVpnIp(addr)
+	if hh == nil {
+		return nil, false
+	}
+	return hh.hostinfo, hh.ready
+}
+
+// VerifHostmapAllocate is the index part of buildStage0Packet: allocateIndex for the pending handshake of addr, then ready.
+func (v *VerifHostmap) VerifHostmapAllocate(addr netip.Addr) (uint32, error) {
+	hh := v.HS.queryVpnIp(addr)
+	idx, err := v.HS.allocateIndex(hh)
+	if err == nil {
+		hh.ready = true
+	}
+	return idx, err
+}
+
+func (v *VerifHostmap) VerifHostmapMakePrimary(h *HostInfo) bool {
+	v.Main.Lock()
+	defer v.Main.Unlock()
+	return v.Main.unlockedMakePrimary(h)
+}
+
+func (v *VerifHostmap) VerifHostmapMaps() (hosts map[netip.Addr]*HostInfo, more map[netip.Addr][]*HostInfo, idx, ridx, relays map[uint32]*HostInfo) {
+	return v.Main.Hosts, v.Main.moreHosts, v.Main.Indexes, v.Main.RemoteIndexes, v.Main.Relays
+}
+
+func (v *VerifHostmap) VerifHostmapPendingMaps() (vpnIps map[netip.Addr]*HostInfo, indexes map[uint32]*HostInfo) {
+	vpnIps = map[netip.Addr]*HostInfo{}
+	indexes = map[uint32]*HostInfo{}
+	for k, hh := range v.HS.vpnIps {
+		vpnIps[k] = hh.hostinfo
+	}
+	for k, hh := range v.HS.indexes {
+		indexes[k] = hh.hostinfo
+	}
+	return
+}
